@@ -518,4 +518,130 @@ theorem W_separate (spec : Str) (colon : Bool) : ∀ (n : Nat) (l : List Str), l
 theorem walk_separate (spec : Str) (args : List Str) :
     obsOf (separate spec args) (walkAll spec (separate spec args)) = obsOf args (walkAll spec args) := by
   rw [walkAll_eq_W, walkAll_eq_W, W_separate spec (isColon spec) args.length args (Nat.le_refl _)]
+/-! ### `separate` really separates -/
+
+/-- `judge spec c = takesArgument` -/
+def takesArgB (spec : Str) (c : Char) : Bool := judge spec c == .takesArgument
+
+/-- Is every group in option position a single letter (or a group with the letter `-`, which cannot be
+    split), each option-argument an argument of its own?  This is what "fully separated" means. -/
+def isSeparated (spec : Str) : List Str → Bool
+  | [] => true
+  | a :: rest =>
+    match a with
+    | '-' :: c :: cs =>
+      if (c :: cs) = ['-'] then true
+      else if (c :: cs).contains '-' then
+        (if (splitGroup spec (c :: cs)).2 then
+          (match rest with
+           | [] => true
+           | _ :: rest' => isSeparated spec rest')
+         else isSeparated spec rest)
+      else if cs.isEmpty then
+        (if takesArgB spec c then
+          (match rest with
+           | [] => true
+           | _ :: rest' => isSeparated spec rest')
+         else isSeparated spec rest)
+      else false
+    | _ => true
+
+/-- after one group: skip the option-argument if one is pending -/
+def afterGroup (spec : Str) (pending : Bool) (tail : List Str) : Bool :=
+  if pending then
+    (match tail with
+     | [] => true
+     | _ :: t' => isSeparated spec t')
+  else isSeparated spec tail
+
+theorem isSeparated_single (spec : Str) (c : Char) (rest : List Str) (hc : c ≠ '-') :
+    isSeparated spec (['-', c] :: rest) = afterGroup spec (takesArgB spec c) rest := by
+  have h1 : ([c] : Str) ≠ ['-'] := by intro h; cases h; exact hc rfl
+  have h2 : ([c] : Str).contains '-' = false := by simp; exact fun h => hc h.symm
+  conv => lhs; unfold isSeparated
+  simp only [h1, if_false, h2, Bool.false_eq_true, List.isEmpty_nil, if_true, afterGroup]
+
+theorem splitGroup_parts_separated (spec : Str) : ∀ (cs : Str) (tail : List Str), '-' ∉ cs →
+    isSeparated spec ((splitGroup spec cs).1 ++ tail) = afterGroup spec (splitGroup spec cs).2 tail := by
+  intro cs
+  induction cs with
+  | nil => intro tail _; simp [splitGroup, afterGroup]
+  | cons c cs ih =>
+    intro tail hd
+    have hc : c ≠ '-' := fun h => hd (by simp [h])
+    have hcs : '-' ∉ cs := fun h => hd (by simp [h])
+    rw [splitGroup_cons]
+    by_cases hs : stopsAt spec c = true
+    · have ht : takesArgB spec c = true := by simpa [stopsAt, takesArgB] using hs
+      simp only [hs, if_true]
+      cases cs with
+      | nil =>
+        simp only [List.isEmpty_nil, if_true, List.singleton_append]
+        rw [isSeparated_single spec c tail hc, ht]
+      | cons r0 cs' =>
+        simp only [List.isEmpty_cons, Bool.false_eq_true, if_false, List.cons_append, List.nil_append]
+        rw [isSeparated_single spec c _ hc, ht]
+        simp [afterGroup]
+    · have hs' : stopsAt spec c = false := by simpa using hs
+      have ht : takesArgB spec c = false := by simpa [stopsAt, takesArgB] using hs'
+      simp only [hs', Bool.false_eq_true, if_false, List.cons_append]
+      rw [isSeparated_single spec c _ hc, ht]
+      simp only [afterGroup, Bool.false_eq_true, if_false]
+      rw [ih tail hcs]; rfl
+
+theorem separate_isSeparated (spec : Str) : ∀ (n : Nat) (args : List Str), args.length ≤ n →
+    isSeparated spec (separate spec args) = true := by
+  intro n
+  induction n with
+  | zero =>
+    intro args hl
+    have : args = [] := List.eq_nil_of_length_eq_zero (Nat.le_zero.mp hl)
+    subst this; rfl
+  | succ n ih =>
+    intro args hl
+    cases args with
+    | nil => rfl
+    | cons a rest =>
+      by_cases hg : ∃ c cs, a = '-' :: c :: cs ∧ (c :: cs) ≠ ['-']
+      · obtain ⟨c, cs, rfl, hdd⟩ := hg
+        rw [separate_group spec c cs rest hdd]
+        -- what follows a group, whatever is written for the group itself
+        have key : ∀ tail, isSeparated spec (groupParts spec c cs ++ tail) =
+            afterGroup spec (splitGroup spec (c :: cs)).2 tail := by
+          intro tail
+          unfold groupParts
+          by_cases hk : (c :: cs).contains '-' = true
+          · simp only [hk, if_true, List.singleton_append]
+            conv => lhs; unfold isSeparated
+            simp only [hdd, if_false, hk, if_true, afterGroup]
+          · simp only [hk]
+            exact splitGroup_parts_separated spec (c :: cs) tail (by simpa using hk)
+        rw [key]
+        cases hp : (splitGroup spec (c :: cs)).2 with
+        | true =>
+          cases rest with
+          | nil => rfl
+          | cons x rest' =>
+            simp only [if_true, afterGroup]
+            exact ih rest' (by simp at hl; omega)
+        | false =>
+          simp only [Bool.false_eq_true, if_false, afterGroup]
+          exact ih rest (by simp at hl; omega)
+      · have : separate spec (a :: rest) = a :: rest := by
+          unfold separate
+          split
+          · rename_i c cs
+            split
+            · rfl
+            · rename_i hdd; exact absurd ⟨c, cs, rfl, hdd⟩ hg
+          · rfl
+        rw [this]
+        unfold isSeparated
+        split
+        · rename_i c cs
+          by_cases hdd : (c :: cs) = ['-']
+          · simp [hdd]
+          · exact absurd ⟨c, cs, rfl, hdd⟩ hg
+        · rfl
+
 end YashModel.Args.Getopts
